@@ -539,11 +539,14 @@ class Graph(object):
         return self._points
 
     def reset(self):
-        """Reset points to an empty list
-        and current context to an empty dict.
+        """Reset points to an empty list,
+        current context to an empty dict
+        and scale to its initial value.
         """
         self._points = []
         self._cur_context = {}
+        # scale could have been set from the context of a filled value
+        self._scale = self._init_context["scale"]
 
     def __repr__(self):
         self._update()
